@@ -361,10 +361,20 @@ pub fn gen_pair(tapes: &[Vec<u32>], focus: Focus) -> PairCase {
     }
     // a client that opens streams before it has seen the server's limit gets the surplus
     // refused (legitimate); keep cooperative runs below the limit from the start
-    let client_init_max_send = match scfg.max_concurrent {
+    let mut client_init_max_send = match scfg.max_concurrent {
         Some(m) => Some((m as usize).min(if t.chance(1, 2) { m as usize } else { 1 + t.below(m as usize) })),
         None => None,
     };
+    // outside the cooperative focus the client may also start from an assumption above the server's real limit:
+    // when the server's SETTINGS arrive the limit drops below the number of streams already open (the surplus is
+    // refused, legitimately), and requests issued afterwards have to wait until enough of them have closed
+    if focus == Focus::Resets {
+        if let Some(m) = scfg.max_concurrent {
+            if t.chance(1, 3) {
+                client_init_max_send = Some(m as usize + 1 + t.below(4));
+            }
+        }
+    }
     if ccfg.max_concurrent == Some(1) && reqs.iter().any(|r| r.pushes.len() > 1) {
         ccfg.max_concurrent = None; // pushed streams over the client's limit: finding F18
     }
